@@ -319,7 +319,7 @@ pub fn main(seed: u64, tier: &str, only: Option<&str>) {
         run_bytes("replay", "replay", &out::unhex(o), &mut stats);
         return;
     }
-    let n = if tier == "thorough" { 30000 } else { 1200 };
+    let n = if tier == "thorough" { 30000 * crate::out::thorough_scale() } else { 1200 };
     for case in 0..n {
         let mut rng = Rng::new(seed ^ 0x6a7e, case as u64);
         match case % 6 {
